@@ -199,8 +199,8 @@ impl Property for C18 {
     }
     fn budget(&self, tier: Tier) -> (u32, u32) {
         match tier {
-            Tier::Quick => (2500, 8),
-            Tier::Thorough => (60000, 16),
+            Tier::Quick => (6000, 8),
+            Tier::Thorough => (300000, 16),
         }
     }
     fn required_counters(&self) -> Vec<&'static str> {
